@@ -249,6 +249,16 @@ static std::vector<Inv> invalidList() {
       add("pGamma", "negative-rate", "pGamma(" + num(x) + ",2," + num(s) + ")", [=] { return RandomTools::pGamma(x, 2.0, s); }, EXC);
       add("pChisq", "negative-df", "pChisq(" + num(x) + "," + num(s) + ")", [=] { return RandomTools::pChisq(x, s); }, EXC | NEG | NANV);
     }
+    // the same at the ends of the support, where the functions have shortcut exits
+    add("incompleteGamma", "negative-shape", "incompleteGamma(0," + num(s) + ",0)", [=] { return RandomTools::incompleteGamma(0.0, s, 0.0); }, VAL, -1);
+    add("pGamma", "negative-shape", "pGamma(0," + num(s) + ",1)", [=] { return RandomTools::pGamma(0.0, s, 1.0); }, EXC);
+    add("pGamma", "negative-rate", "pGamma(0,2," + num(s) + ")", [=] { return RandomTools::pGamma(0.0, 2.0, s); }, EXC);
+    add("pChisq", "negative-df", "pChisq(0," + num(s) + ")", [=] { return RandomTools::pChisq(0.0, s); }, EXC | NEG | NANV);
+    for (double x : {0.0, 1.0}) {
+      add("pBeta", "negative-shape", "pBeta(" + num(x) + "," + num(s) + ",2)", [=] { return RandomTools::pBeta(x, s, 2.0); }, EXC);
+      add("pBeta", "negative-shape", "pBeta(" + num(x) + ",2," + num(s) + ")", [=] { return RandomTools::pBeta(x, 2.0, s); }, EXC);
+      add("incompleteBeta", "negative-shape", "incompleteBeta(" + num(x) + "," + num(s) + "," + num(s) + ")", [=] { return RandomTools::incompleteBeta(x, s, s); }, EXC);
+    }
     add("pBeta", "negative-shape", "pBeta(0.5," + num(s) + ",2)", [=] { return RandomTools::pBeta(0.5, s, 2.0); }, EXC);
     add("pBeta", "negative-shape", "pBeta(0.5,2," + num(s) + ")", [=] { return RandomTools::pBeta(0.5, 2.0, s); }, EXC);
     add("incompleteBeta", "negative-shape", "incompleteBeta(0.5," + num(s) + "," + num(s) + ")", [=] { return RandomTools::incompleteBeta(0.5, s, s); }, EXC);
